@@ -3,8 +3,34 @@ returns (bytes, truth) where truth is what a correct parser must report."""
 from .rfc9000 import varint
 
 
+class _W:
+    """per-field varint widths: an int / None applies to every field, a tuple is consumed field by field"""
+
+    def __init__(self, w):
+        self.w = w
+        self.i = 0
+
+    def __call__(self, v):
+        if isinstance(self.w, (tuple, list)):
+            w = self.w[self.i] if self.i < len(self.w) else None
+            self.i += 1
+            return varint(v, w)
+        return varint(v, self.w)
+
+
 def vi(v, w):
+    if isinstance(w, _W):
+        return w(v)
     return varint(v, w)
+
+
+def mixed(nfields):
+    """width profiles with exactly one field wider than the others"""
+    out = []
+    for i in range(nfields):
+        for wide in (2, 8):
+            out.append(tuple(wide if j == i else 1 for j in range(nfields)))
+    return out
 
 
 def padding(n=1):
@@ -16,6 +42,7 @@ def ping():
 
 
 def ack(largest=10, delay=3, ranges=(), first=2, ecn=None, w=None):
+    w = _W(w)
     t = 0x03 if ecn else 0x02
     b = bytes([t]) + vi(largest, w) + vi(delay, w) + vi(len(ranges), w) + vi(first, w)
     for gap, ln in ranges:
@@ -27,22 +54,27 @@ def ack(largest=10, delay=3, ranges=(), first=2, ecn=None, w=None):
 
 
 def reset_stream(sid=4, err=7, final=50, w=None):
+    w = _W(w)
     return b"\x04" + vi(sid, w) + vi(err, w) + vi(final, w), {"cls": "ResetStreamFrame", "type": 4}
 
 
 def stop_sending(sid=4, err=7, w=None):
+    w = _W(w)
     return b"\x05" + vi(sid, w) + vi(err, w), {"cls": "StopSendingFrame", "type": 5}
 
 
 def crypto(offset, data, w=None):
+    w = _W(w)
     return b"\x06" + vi(offset, w) + vi(len(data), w) + data, {"cls": "CryptoFrame", "type": 6, "offset": offset, "crypto": data}
 
 
 def new_token(token, w=None):
+    w = _W(w)
     return b"\x07" + vi(len(token), w) + token, {"cls": "NewTokenFrame", "type": 7}
 
 
 def stream(sid, data, offset=0, off=False, ln=True, fin=False, w=None):
+    w = _W(w)
     t = 0x08 | (4 if off else 0) | (2 if ln else 0) | (1 if fin else 0)
     b = bytes([t]) + vi(sid, w)
     if off:
@@ -55,38 +87,46 @@ def stream(sid, data, offset=0, off=False, ln=True, fin=False, w=None):
 
 
 def max_data(v=60, w=None):
+    w = _W(w)
     return b"\x10" + vi(v, w), {"cls": "MaxDataFrame", "type": 0x10}
 
 
 def max_stream_data(sid=4, v=60, w=None):
+    w = _W(w)
     return b"\x11" + vi(sid, w) + vi(v, w), {"cls": "MaxStreamDataFrame", "type": 0x11}
 
 
 def max_streams(v=10, uni=False, w=None):
+    w = _W(w)
     t = 0x13 if uni else 0x12
     return bytes([t]) + vi(v, w), {"cls": "MaxStreamsFrame", "type": t}
 
 
 def data_blocked(v=60, w=None):
+    w = _W(w)
     return b"\x14" + vi(v, w), {"cls": "DataBlockedFrame", "type": 0x14}
 
 
 def stream_data_blocked(sid=4, v=60, w=None):
+    w = _W(w)
     return b"\x15" + vi(sid, w) + vi(v, w), {"cls": "StreamDataBlockedFrame", "type": 0x15}
 
 
 def streams_blocked(v=10, uni=False, w=None):
+    w = _W(w)
     t = 0x17 if uni else 0x16
     return bytes([t]) + vi(v, w), {"cls": "StreamsBlockedFrame", "type": t}
 
 
 def new_connection_id(seq, cid, retire=0, token=b"T" * 16, w=None):
+    w = _W(w)
     assert len(token) == 16
     return (b"\x18" + vi(seq, w) + vi(retire, w) + bytes([len(cid)]) + cid + token,
             {"cls": "NewConnectionIdFrame", "type": 0x18, "connection_id": cid})
 
 
 def retire_connection_id(seq=1, w=None):
+    w = _W(w)
     return b"\x19" + vi(seq, w), {"cls": "RetireConnectionIdFrame", "type": 0x19}
 
 
@@ -99,6 +139,7 @@ def path_response(data=b"87654321"):
 
 
 def connection_close(err=1, ftype=6, reason=b"", app=False, w=None):
+    w = _W(w)
     if app:
         return b"\x1d" + vi(err, w) + vi(len(reason), w) + reason, {"cls": "ConnectionCloseFrame", "type": 0x1d}
     return b"\x1c" + vi(err, w) + vi(ftype, w) + vi(len(reason), w) + reason, {"cls": "ConnectionCloseFrame", "type": 0x1c}
@@ -109,6 +150,7 @@ def handshake_done():
 
 
 def datagram(data, ln=True, w=None):
+    w = _W(w)
     if ln:
         return b"\x31" + vi(len(data), w) + data, {"cls": "DatagramFrame", "type": 0x31}
     return b"\x30" + data, {"cls": "DatagramFrame", "type": 0x30, "last_only": True}
@@ -163,6 +205,25 @@ def alphabet(full=True):
             add(f"CONNECTION_CLOSE_APP/{len(r)}/w{w}", connection_close(reason=r, app=True, w=w))
         for d in ((b"d", b"dgram") if full else (b"dg",)):
             add(f"DATAGRAM_LEN/{len(d)}/w{w}", datagram(d, w=w))
+    if full:
+        for prof in mixed(4):
+            add(f"ACK/r0/mixed{prof}", ack(ranges=(), w=prof))
+        for prof in mixed(7):
+            add(f"ACKECN/r0/mixed{prof}", ack(ranges=(), ecn=(1, 2, 3), w=prof))
+        for prof in mixed(6):
+            add(f"ACK/r1/mixed{prof}", ack(ranges=((1, 2),), w=prof))
+        for prof in mixed(3):
+            add(f"RESET_STREAM/mixed{prof}", reset_stream(w=prof))
+            add(f"STREAM/o1l1f0/5/mixed{prof}", stream(8, b"strea", offset=33, off=True, ln=True, w=prof))
+            add(f"CONNECTION_CLOSE/3/mixed{prof}", connection_close(reason=b"bye", w=prof))
+        for prof in mixed(2):
+            add(f"STOP_SENDING/mixed{prof}", stop_sending(w=prof))
+            add(f"CRYPTO/5/mixed{prof}", crypto(5, b"crypt", w=prof))
+            add(f"MAX_STREAM_DATA/mixed{prof}", max_stream_data(w=prof))
+            add(f"STREAM_DATA_BLOCKED/mixed{prof}", stream_data_blocked(w=prof))
+            add(f"NEW_CONNECTION_ID/8/mixed{prof}", new_connection_id(2, b"ABCDEFGH", w=prof))
+            add(f"CONNECTION_CLOSE_APP/3/mixed{prof}", connection_close(reason=b"bye", app=True, w=prof))
+            add(f"STREAM/o0l1f0/5/mixed{prof}", stream(8, b"strea", ln=True, w=prof))
     add("PATH_CHALLENGE", path_challenge())
     add("PATH_RESPONSE", path_response())
     add("HANDSHAKE_DONE", handshake_done())
